@@ -35,7 +35,9 @@ const PI: u8 = 1;
 const BG: u8 = 2;
 const IT: u8 = 3;
 const EN: u8 = 4;
-const PHASE: [&str; 5] = ["prepare_thread", "prepare_iter", "begin", "iter", "end"];
+/// drop of the value an `iter` callback returned ("dropped after the measured part")
+const CL: u8 = 5;
+const PHASE: [&str; 6] = ["prepare_thread", "prepare_iter", "begin", "iter", "end", "cleanup-drop"];
 
 /// How long the worker waits for `execute_on` before it calls the run hung (never a verdict).
 const HANG_MS: u64 = 1200;
@@ -92,6 +94,10 @@ struct Rec {
     uar: AtomicU32,
     /// callbacks that finished after the first scripted panic had fired
     ran_after_fired: AtomicU64,
+    /// state handed to a callback was not the state the same thread's earlier callback produced:
+    /// bit 0 thread state in prepare_iter, 1 thread state in begin, 2 thread state in iter,
+    /// 3 iteration state in iter
+    state_mismatch: AtomicU32,
     slots: Vec<Slot>,
     /// threads that found no free slot (more than SLOTS distinct threads ran callbacks)
     overflow: AtomicUsize,
@@ -108,6 +114,7 @@ impl Rec {
             inside: AtomicUsize::new(0),
             uar: AtomicU32::new(0),
             ran_after_fired: AtomicU64::new(0),
+            state_mismatch: AtomicU32::new(0),
             slots: (0..SLOTS)
                 .map(|_| Slot {
                     id: OnceLock::new(),
@@ -235,19 +242,46 @@ fn callback(rec: &Rec, phase: u8, meta: Option<&RunMeta>) -> usize {
     ordinal
 }
 
-type TheRun<'a> = ConfiguredRun<'a, usize, usize, usize, (usize, usize), ()>;
+/// What an `iter` callback returns: "a value to drop after the measured part".
+struct Cleanup<'a>(&'a Rec);
 
+impl Drop for Cleanup<'_> {
+    fn drop(&mut self) {
+        callback(self.0, CL, None);
+    }
+}
+
+type TheRun<'a> = ConfiguredRun<'a, usize, usize, usize, (usize, usize), Cleanup<'a>>;
+
+/// Every callback returns its thread's ordinal as the state it produces, so each later callback
+/// can tell whether the state it is handed was produced on its own thread.
 fn build_run(rec: &Rec) -> TheRun<'_> {
+    let mismatch = move |bit: u32, got: usize, me: usize| {
+        if got != me {
+            rec.state_mismatch.fetch_or(1 << bit, SeqCst);
+        }
+    };
     Run::new()
         .groups(NonZero::new(rec.script.groups).expect("groups >= 1"))
         .prepare_thread(move |a| callback(rec, PT, Some(a.meta())))
-        .prepare_iter(move |a| callback(rec, PI, Some(a.meta())))
+        .prepare_iter(move |a| {
+            let me = callback(rec, PI, Some(a.meta()));
+            mismatch(0, *a.thread_state(), me);
+            me
+        })
         .measure_wrapper(
-            move |a| callback(rec, BG, Some(a.meta())),
+            move |a| {
+                let me = callback(rec, BG, Some(a.meta()));
+                mismatch(1, *a.thread_state(), me);
+                me
+            },
             move |begin_ordinal: usize| (begin_ordinal, callback(rec, EN, None)),
         )
-        .iter(move |a| {
-            callback(rec, IT, Some(a.meta()));
+        .iter(move |mut a| {
+            let me = callback(rec, IT, Some(a.meta()));
+            mismatch(2, *a.thread_state(), me);
+            mismatch(3, a.take_iter_state(), me);
+            Cleanup(rec)
         })
 }
 
@@ -288,6 +322,13 @@ fn judge_healthy(rec: &Rec, outputs: &[(usize, usize)], pool_threads: &mut Optio
         ensure!(count(BG) == 1, "C17/execute_on/begin-count", "{what}: thread #{t} ran the measure wrapper begin {} times", count(BG));
         ensure!(count(EN) == 1, "C17/execute_on/end-count", "{what}: thread #{t} ran the measure wrapper end {} times", count(EN));
         ensure!(
+            count(CL) == s.iterations,
+            "C17/execute_on/cleanup-drop-count",
+            "{what}: thread #{t}: {} of the {} values returned by iter were dropped by the time execute_on returned",
+            count(CL),
+            s.iterations
+        );
+        ensure!(
             l.evs.windows(2).all(|w| w[0].phase <= w[1].phase && w[0].exit < w[1].entry),
             "C17/execute_on/callback-order",
             "{what}: thread #{t} callbacks not in order prepare_thread, prepare_iter*, begin, iter*, end: {:?}",
@@ -309,6 +350,12 @@ fn judge_healthy(rec: &Rec, outputs: &[(usize, usize)], pool_threads: &mut Optio
             }
         }
     }
+    let mm = rec.state_mismatch.load(SeqCst);
+    ensure!(
+        mm == 0,
+        "C17/execute_on/state-from-another-thread",
+        "{what}: a callback was handed state that a different thread's callback produced (bits: 0 thread state in prepare_iter, 1 in begin, 2 in iter, 3 iteration state in iter): {mm:#b}"
+    );
     ensure!(
         group_sizes.iter().all(|n| *n == s.threads / s.groups),
         "C17/execute_on/groups-uneven",
@@ -826,8 +873,8 @@ fn check_fault(case: &FCase, ctx: &mut Ctx, drv: &mut FaultDriver) -> Verdict {
         ctx.nontrivial();
     }
     if reply.uar != 0 {
-        let p = (0..5).find(|p| reply.uar >> p & 1 == 1).expect("a bit is set");
-        let seen: Vec<&str> = (0..5).filter(|p| reply.uar >> p & 1 == 1).map(|p| PHASE[p]).collect();
+        let p = (0..6).find(|p| reply.uar >> p & 1 == 1).expect("a bit is set");
+        let seen: Vec<&str> = (0..6).filter(|p| reply.uar >> p & 1 == 1).map(|p| PHASE[p]).collect();
         fail!(
             format!("C17/execute_on/use-after-return/{}", PHASE[p]),
             "threads={} groups={} iterations={}: threads reported at positions {:?} panic in {} (k={}); execute_on {} ({:?}) with {} thread(s) inside callbacks; afterwards callbacks {:?} ran or were still running on state borrowed by the run",
